@@ -32,6 +32,9 @@ pub struct PairSpec {
 	pub seek_gran: usize,
 	pub chunk: usize,
 	pub seed: u64,
+	/// both sounds are made from the bytes of a WAV file (the library's own decoder on the streaming side) instead of a frame
+	/// buffer and a scripted decoder
+	pub file_backed: bool,
 }
 
 #[derive(Clone, Debug)]
@@ -81,7 +84,7 @@ pub fn gen_pair(r: &mut Rng, quick: bool) -> PairSpec {
 	if len > 17000 && slice.is_none() && r.chance(0.35) {
 		// callbacks whose size divides 16383 = 3 x 43 x 127: one of them begins exactly when the 16384-slot ring between the
 		// decoder thread and the sound wraps (rate 1, device at the sound's rate, so one output frame consumes one ring slot)
-		return PairSpec { len, sr, dev_sr: sr, slice: None, start: 0, lp, rate: 1.0, vol_db: 0.0, pan: 0.0, fade_in: None, delay_start: None, packets, seek_gran: 1, chunk: *r.pick(&[381usize, 5461]), seed: r.next() };
+		return PairSpec { len, sr, dev_sr: sr, slice: None, start: 0, lp, rate: 1.0, vol_db: 0.0, pan: 0.0, fade_in: None, delay_start: None, packets, seek_gran: 1, chunk: *r.pick(&[381usize, 5461]), seed: r.next(), file_backed: false };
 	}
 	PairSpec {
 		len,
@@ -103,6 +106,7 @@ pub fn gen_pair(r: &mut Rng, quick: bool) -> PairSpec {
 		seek_gran: *r.pick(&[1usize, 1, 8, 64, 1000, 4096]),
 		chunk: *r.pick(&[1usize, 16, 64, 128, 512, 333]),
 		seed: r.next(),
+		file_backed: len > 0 && r.chance(0.12),
 	}
 }
 
@@ -141,6 +145,19 @@ pub fn run_pair(p: &PairSpec, r: &mut Rng, n_callbacks: usize) -> Result<Outcome
 		sst = sst.loop_region(region(a, b));
 		dst = dst.loop_region(region(a, b));
 	}
+	if p.file_backed {
+		// 16-bit stereo WAV of the same noise; both sides read the same bytes
+		use crate::props::c18::{encode_wav, Fmt, Smp, WavSpec};
+		let spec = WavSpec { fmt: Fmt::I16, channels: 2, rate: p.sr, extensible: false, junk_before: None, junk_after: false, fact: false };
+		let bytes = encode_wav(&spec, p.len, &mut |i, c| Smp::Int(((if c == 0 { frames[i].left } else { frames[i].right }) * 32767.0).round() as i64));
+		let mut sdata = StaticSoundData::from_cursor(std::io::Cursor::new(bytes.clone())).map_err(|e| format!("the WAV file does not load: {}", e))?.with_settings(sst);
+		let mut ddata = StreamingSoundData::from_cursor(std::io::Cursor::new(bytes)).map_err(|e| format!("the WAV file does not stream: {}", e))?.with_settings(dst);
+		if let Some((a, b)) = p.slice {
+			sdata = sdata.slice(region(a, b));
+			ddata = ddata.slice(region(a, b));
+		}
+		return lockstep(p, r, n_callbacks, sdata, ddata);
+	}
 	let sdata = StaticSoundData { sample_rate: p.sr, frames: frames.as_slice().into(), settings: sst, slice: p.slice };
 	let (dec, _obs) = ScriptedDecoder::new(frames.clone(), DecoderScript { sample_rate: p.sr, packets: p.packets.clone(), seek_granularity: p.seek_gran, ..Default::default() });
 	let mut ddata = StreamingSoundData::from_decoder(dec).with_settings(dst);
@@ -153,6 +170,10 @@ pub fn run_pair(p: &PairSpec, r: &mut Rng, n_callbacks: usize) -> Result<Outcome
 			_ => ddata.slice(region(b / 3, b)).slice(region(a, b)),
 		};
 	}
+	lockstep(p, r, n_callbacks, sdata, ddata)
+}
+
+fn lockstep<E: Send + 'static + std::fmt::Display>(p: &PairSpec, r: &mut Rng, n_callbacks: usize, sdata: StaticSoundData, ddata: StreamingSoundData<E>) -> Result<Outcome, String> {
 	let (mut ssound, mut sh) = sdata.into_sound().map_err(|_| "static into_sound failed".to_string())?;
 	let (mut dsound, mut dh) = ddata.into_sound().map_err(|e| format!("streaming into_sound failed: {}", e))?;
 	let dec_state = crate::hooks::last_decoder().ok_or("decoder hook not observed")?;
